@@ -8,9 +8,12 @@ import numpy as np
 from vf.oracles import most
 
 PROFILE_SETS = ("const", "most_u", "most_aniso", "mostm_s")
+AXIS_SETS = ("most_x", "mostm_y")  # a wind component identically zero; MOSTM: no diffusion along the wind
 HALOS = (0.0, None, 30.0, 20.0, 13.0, 45.0, 7.0)
 GRIDS = (((8, 6), (80.0, 90.0)), ((6, 8), (90.0, 80.0)))
 # odd sizes: the padded size is odd too, so only mode counts above it (clamped to it) are accepted
+# single-row / single-column grids (the library squeezes the singleton axis away; comparisons reshape both sides)
+DEGENERATE_GRIDS = (((8, 1), (80.0, 15.0)), ((1, 6), (10.0, 90.0)))
 ODD_GRIDS = (((7, 5), (70.0, 75.0)), ((8, 5), (80.0, 75.0)), ((5, 6), (75.0, 60.0)))
 
 
@@ -41,6 +44,16 @@ def build_profiles(name, nlay=4):
         K = most.K(z, ust, L)
         u, v = -0.6 * s, 0.8 * s
         return z, (u, v, K * 0.64, K * 0.36, K.copy())
+    if name == "most_x":  # wind EXACTLY along +x (v identically zero), isotropic MOST diffusivity
+        L, ust = -50.0, 0.4
+        s = most.speed(z, z0, ust, L) + 0.3
+        K = most.K(z, ust, L)
+        return z, (s.copy(), np.zeros(n), K.copy(), K.copy(), K.copy())
+    if name == "mostm_y":  # MOSTM with wind exactly along -y: u identically zero and NO diffusion along the wind (Ky = 0)
+        L, ust = 80.0, 0.3
+        s = most.speed(z, z0, ust, L) + 0.3
+        K = most.K(z, ust, L)
+        return z, (np.zeros(n), -s, K.copy(), np.zeros(n), K.copy())
     if name == "const_iso":
         one = np.ones(n)
         return z, (1.9 * one, 1.2 * one, 1.1 * one, 1.1 * one, 1.1 * one)
@@ -123,9 +136,9 @@ def kz_fn(name):
         return lambda zz: 0.9 + 0.0 * np.asarray(zz, dtype=float)
     if name == "const_iso":
         return lambda zz: 1.1 + 0.0 * np.asarray(zz, dtype=float)
-    if name in ("most_u", "most_aniso"):
+    if name in ("most_u", "most_aniso", "most_x"):
         return lambda zz: most.K(zz, 0.4, -50.0)
-    if name == "mostm_s":
+    if name in ("mostm_s", "mostm_y"):
         return lambda zz: most.K(zz, 0.3, 80.0)
     raise ValueError(name)
 
